@@ -213,7 +213,14 @@ Fixpoint spec_merge_at (polf : list field -> N) (pos : list field) (a b : otree)
                match l with
                | [] => acc
                | (k, vb) :: r =>
-                 go (dict_set k (match dict_get k acc with
+                 (* a container that is replaced wholesale drops what it held - except a subtree
+                    that has a policy of its own: that one is merged under its policy *)
+                 let old := match dict_get k acc with
+                            | Some va => Some va
+                            | None => if pol_replace pol && negb (pol_replace (polf (pos ++ [FName k])))
+                                      then dict_get k da else None
+                            end in
+                 go (dict_set k (match old with
                                  | Some va => spec_merge_at polf (pos ++ [FName k]) va vb
                                  | None => vb end) acc) r
                end) (if pol_replace pol then [] else da) mb
